@@ -28,6 +28,17 @@ theorem InvTo.bind {m : M α} {f : α → M β} (hm : InvTo P R m) (hf : ∀ a, 
   | ok a => rw [run_bind_ok hms]; exact hf a s1 h1
   | error e => rw [run_bind_err hms]; exact he s1 h1
 
+/-- `try: m except: fin; raise` followed by `f`: the repair `fin` must lead from what `m` leaves to the goal -/
+theorem InvTo.bind_onError {m : M α} {fin : St → St} {f : α → M β} (hm : InvTo P R m) (hf : ∀ a, InvTo R Q (f a))
+    (he : ∀ s, R s → Q (fin s)) : InvTo P Q (onError m fin >>= f) := by
+  intro s hs
+  have h1 := hm s hs
+  rcases hms : m s with ⟨r, s1⟩
+  rw [hms] at h1
+  cases r with
+  | ok a => rw [run_bind_ok (run_onError_ok hms)]; exact hf a s1 h1
+  | error e => rw [run_bind_err (run_onError_err hms)]; exact he s1 h1
+
 theorem InvTo.bind_ofRes {r : Res α} {f : α → M β} (h : ∀ a, r = .ok a → InvTo P Q (f a))
     (he : ∀ s, P s → Q s) : InvTo P Q (M.ofRes r >>= f) := by
   intro s hs
